@@ -44,6 +44,15 @@ def run(chk, tier):
                        "the volume block; the result is Scan(first VCP or MissingCoveragePattern, from_radials(radials)). Sweep::from_radials' induction (C09) and "
                        "the into_radial field mapping (C07) are re-checked here because the property includes the final elevation and 'not altered'.")
     chk.trust("vec::IntoIter yields in order; Vec::push appends; callees Record::{compressed,decompress,messages}, File::records are decided by C05/C06/C03")
+    # 'not altered' reaches into the type-31 decoder: every moment block is delivered to its own slot with a gate buffer of
+    # exactly gates x word bytes (the C02 obligations on the decoder the pipeline calls)
+    from rules import c02
+    c02.gate_buffer(chk, prog)
+    f31 = prog.fn(c02.FN)
+    if f31 is None:
+        chk.blind("VN", c02.FN, "type-31 decoder not found")
+    else:
+        c02.loop_checks(chk, prog, f31, P(f31.local_name(1) or "reader"))
     fn = prog.fn(SCAN)
     if fn is None:
         chk.blind("R-LIN", SCAN, "File::scan not found")
